@@ -8,9 +8,12 @@ import (
 	"net/http/httptest"
 	"net/url"
 	"path"
+	"regexp"
+	"sort"
 	"strings"
 
 	"github.com/honeycombio/refinery/config"
+	"github.com/gorilla/mux"
 	cq "github.com/honeycombio/refinery/verifharness/coqfmt"
 )
 
@@ -74,6 +77,21 @@ func c25Gen(r *rand.Rand, tier string, i int) any {
 		}
 		return c25Sweep(r.Intn(c25SweepSize))
 	}
+	// every route the REAL mux holds (whatever router it was registered on) is probed too, so a revealing handler
+	// reachable outside the token-checked /query/ sub-router becomes a concrete failing request
+	if walked := c25WalkRoutes(); len(walked) > 0 && (i%8 == 1 || (tier == "thorough" && i%3 == 1)) {
+		wr := walked[r.Intn(len(walked))]
+		in := c25Input{Router: "incoming", Path: wr.path, Method: "GET"}
+		if len(wr.methods) > 0 {
+			in.Method = wr.methods[r.Intn(len(wr.methods))]
+		}
+		if r.Intn(4) == 0 {
+			in.Method = c25Methods[r.Intn(len(c25Methods))]
+		}
+		in.Required = c25Required[r.Intn(len(c25Required))]
+		in.Tok = []string{"absent", "absent", "empty", "other", "prefix", "exact"}[r.Intn(6)]
+		return in
+	}
 	in := c25Input{Router: "incoming", Method: "GET"}
 	if r.Intn(6) == 0 {
 		in.Router = "peer"
@@ -107,6 +125,53 @@ func c25Gen(r *rand.Rand, tier string, i int) any {
 		in.Dup = true
 	}
 	return in
+}
+
+type c25Walked struct {
+	path    string
+	methods []string
+}
+
+var c25WalkCache []c25Walked
+
+// c25WalkRoutes lists every route template of the real mux (variables filled in) with its methods.
+func c25WalkRoutes() []c25Walked {
+	if c25WalkCache != nil {
+		return c25WalkCache
+	}
+	g, err := respGetRigEnv("incoming", true)
+	if err != nil {
+		return nil
+	}
+	root, ok := g.handler.(*mux.Router)
+	if !ok {
+		return nil
+	}
+	fill := strings.NewReplacer("{traceID}", "abc123", "{format}", "json", "{dataset}", "prod", "{datasetName}", "ds")
+	varRe := regexp.MustCompile(`\{[^}]*\}`)
+	seen := map[string]bool{}
+	root.Walk(func(rt *mux.Route, _ *mux.Router, _ []*mux.Route) error {
+		if rt.GetHandler() == nil { // a sub-router entry, not an endpoint
+			return nil
+		}
+		tpl, err := rt.GetPathTemplate()
+		if err != nil || tpl == "" || tpl == "/" {
+			return nil
+		}
+		p := varRe.ReplaceAllString(fill.Replace(tpl), "x")
+		if strings.HasPrefix(p, "/panic") { // the intentional-panic endpoint is not a subject here
+			return nil
+		}
+		ms, _ := rt.GetMethods()
+		key := p + "|" + strings.Join(ms, ",")
+		if !seen[key] {
+			seen[key] = true
+			c25WalkCache = append(c25WalkCache, c25Walked{path: p, methods: ms})
+		}
+		return nil
+	})
+	sort.Slice(c25WalkCache, func(a, b int) bool { return c25WalkCache[a].path < c25WalkCache[b].path })
+	return c25WalkCache
 }
 
 func c25Token(required, variant string) (string, bool) {
@@ -228,6 +293,9 @@ func c25Run(raw json.RawMessage) (Case, error) {
 		case "configmetadata":
 			marker = strings.Contains(body, "SECRET-META-ID")
 		}
+	}
+	if !(len(segs) >= 2 && segs[0] == "query") && leak {
+		marker = true // a revealing handler answered on a path outside /query/
 	}
 	clean := c25MuxClean(decoded) == decoded
 	if len(body) > 600 {
